@@ -125,7 +125,7 @@ func (vc *VC) call(fr *Frame, instr ssa.Instruction, c *ssa.CallCommon, st *Stat
 		if spec == nil {
 			vc.opaque[name+" (interface method without contract: results arbitrary, no caller-visible state modified)"] = true
 			vc.bumpEvent(st, name)
-			return vc.freshResult(st, resType, name)
+			return zeroOffsets(vc.freshResult(st, resType, name))
 		}
 		sig := c.Method.Type().(*types.Signature)
 		names := []string{"self"}
@@ -171,6 +171,9 @@ func (vc *VC) call(fr *Frame, instr ssa.Instruction, c *ssa.CallCommon, st *Stat
 		vc.opaque["call through function value "+c.Value.Name()+" in "+fr.fn.Name()+" (results arbitrary; heap havoc)"] = true
 		vc.havocAll(st)
 		return vc.freshResult(st, resType, "dyncall")
+	}
+	if r, ok := vc.intrinsic(fr, instr, callee, args, st); ok {
+		return r
 	}
 	name := vc.eng.displayName(callee, fnPkg(fr.fn))
 	spec := vc.eng.lookupSpec(callee)
@@ -234,6 +237,18 @@ func (vc *VC) freshResult(st *State, t types.Type, label string) Val {
 	return vc.freshVal(st, t, "res."+label)
 }
 
+// zeroOffsets normalises slice results of library / interface / opaque calls to offset 0
+// (their position inside a backing array nobody else refers to is unobservable).
+func zeroOffsets(v Val) Val {
+	if v.Sl != nil {
+		v.Sl = &SliceVal{v.Sl.Arr, "0", v.Sl.Len, v.Sl.Cap}
+	}
+	for i := range v.Tuple {
+		v.Tuple[i] = zeroOffsets(v.Tuple[i])
+	}
+	return v
+}
+
 func (vc *VC) bumpEvent(st *State, name string) {
 	if vc.eng.trackedEvents[name] {
 		c := vc.eventComp(name)
@@ -289,8 +304,11 @@ func (vc *VC) inline(fr *Frame, instr ssa.Instruction, fn *ssa.Function, spec *F
 		}
 	}
 	vc.depth++
+	savedLocals := st.locals
+	st.locals = nil
 	rets := vc.execBody(nf, st)
 	vc.depth--
+	st.locals = savedLocals
 	if len(rets) == 0 {
 		st.pc = "false"
 		st.dead = true
@@ -305,6 +323,7 @@ func (vc *VC) inline(fr *Frame, instr ssa.Instruction, fn *ssa.Function, spec *F
 	m := vc.merge(edges, "ret."+fn.Name())
 	st.pc = m.pc
 	st.heap = m.heap
+	st.locals = savedLocals
 	sig := fn.Signature
 	switch sig.Results().Len() {
 	case 0:
@@ -422,7 +441,7 @@ func (vc *VC) applyContract(fr *Frame, instr ssa.Instruction, spec *FuncSpec, na
 		}
 	}
 	callerEnv := func(cur *State, extra map[string]Val) *SpecEnv {
-		env := vc.specEnv(fr, cur, fr.oldStOrSelf(cur), extra)
+		env := vc.specEnvCur(fr, cur, fr.oldStOrSelf(cur), extra)
 		for i := range args {
 			env.vars[fmt.Sprintf("arg%d", i)] = args[i]
 		}
@@ -461,6 +480,21 @@ func (vc *VC) applyContract(fr *Frame, instr ssa.Instruction, spec *FuncSpec, na
 	}
 	vc.bumpEvent(st, name)
 	res := vc.freshResult(st, resType, name)
+	if spec.Kind != "func" {
+		res = zeroOffsets(res)
+	} else {
+		// a (verified) postcondition of the exact form `off(retK) == 0` is used syntactically
+		for _, c := range spec.Ensures {
+			if k, ok := offZeroClause(c.E); ok {
+				if sig.Results().Len() == 1 && k == 0 && res.Sl != nil {
+					res.Sl = &SliceVal{res.Sl.Arr, "0", res.Sl.Len, res.Sl.Cap}
+				} else if k < len(res.Tuple) && res.Tuple[k].Sl != nil {
+					s := res.Tuple[k].Sl
+					res.Tuple[k].Sl = &SliceVal{s.Arr, "0", s.Len, s.Cap}
+				}
+			}
+		}
+	}
 	results := map[string]Val{}
 	rl := sig.Results()
 	for i := 0; i < rl.Len(); i++ {
@@ -556,9 +590,10 @@ func (vc *VC) havocLoc(env *SpecEnv, st *State, loc Expr) {
 
 // Loc: a heap component, optionally restricted to one reference (row/object).
 type Loc struct {
-	Comp string
-	Ref  string // "" = whole component
-	Key  string // for ghost maps: key restriction
+	Comp   string
+	Ref    string // "" = whole component
+	Key    string // for ghost maps: key restriction
+	Lo, Hi string // element range inside the row Ref (absolute indices); "" = whole row
 }
 
 func (vc *VC) havocOne(st *State, l Loc) {
@@ -570,6 +605,10 @@ func (vc *VC) havocOne(st *State, l Loc) {
 	// element sort of the array
 	inner := arrayElemSort(sort)
 	fv := vc.freshConst("hv", inner)
+	if l.Lo != "" && strings.HasPrefix(inner, "(Array Int ") {
+		old := fmt.Sprintf("(select %s %s)", vc.get(st, l.Comp), l.Ref)
+		vc.emit(fmt.Sprintf("(assert (forall ((k Int)) (! (=> (or (< k %s) (>= k %s)) (= (select %s k) (select %s k))) :pattern ((select %s k)))))", l.Lo, l.Hi, fv, old, fv))
+	}
 	vc.set(st, l.Comp, fmt.Sprintf("(store %s %s %s)", vc.get(st, l.Comp), l.Ref, fv))
 }
 
@@ -682,7 +721,14 @@ func (vc *VC) locsOf(env *SpecEnv, e Expr) []Loc {
 		base := vc.trExpr(env, x.X)
 		if base.Sl != nil {
 			el := base.Typ.Underlying().(*types.Slice).Elem()
-			return []Loc{{Comp: vc.elemComp(el), Ref: base.Sl.Arr}}
+			lo, hi := "0", base.Sl.Len
+			if x.Lo != nil {
+				lo = vc.trExpr(env, x.Lo).T
+			}
+			if x.Hi != nil {
+				hi = vc.trExpr(env, x.Hi).T
+			}
+			return []Loc{{Comp: vc.elemComp(el), Ref: base.Sl.Arr, Lo: addT(base.Sl.Off, lo), Hi: addT(base.Sl.Off, hi)}}
 		}
 	}
 	vc.specErr("unsupported modifies location %s", e)
@@ -1165,6 +1211,13 @@ func (vc *VC) copyOp(fr *Frame, c *ssa.CallCommon, st *State) Val {
 	// row[k] = (dOff <= k < dOff+n) ? sRow[sOff + (k - dOff)] : dRow[k]      (sRow is the pre-state: memmove)
 	vc.emit(fmt.Sprintf("(assert (forall ((k Int)) (! (= (select %s k) (ite (and (<= %s k) (< k (+ %s %s))) (select %s (+ %s (- k %s))) (select %s k))) :pattern ((select %s k)))))",
 		row, d.Sl.Off, d.Sl.Off, n, sRow, sOff, d.Sl.Off, dRow, row))
+	// functions of slice contents agree on the copied range (instances of extensionality)
+	for _, uf := range vc.sliceUFs {
+		if uf[1] == fmt.Sprintf("(Array Int %s)", es) {
+			vc.emit(fmt.Sprintf("(assert (forall ((x Int) (y Int)) (! (=> (and (<= %s x) (<= 0 y) (<= (+ x y) (+ %s %s))) (= (%s %s x y) (%s %s (+ (- x %s) %s) y))) :pattern ((%s %s x y)))))",
+				d.Sl.Off, d.Sl.Off, n, uf[0], row, uf[0], sRow, d.Sl.Off, sOff, uf[0], row))
+		}
+	}
 	vc.set(st, comp, fmt.Sprintf("(store %s %s %s)", vc.get(st, comp), d.Sl.Arr, row))
 	return Val{T: n, Typ: types.Typ[types.Int]}
 }
@@ -1243,7 +1296,7 @@ func (vc *VC) loopHead(fr *Frame, li *loopInfo, st *State, phis []*ssa.Phi, entr
 	locals := vc.loopLocals(fr, li, phis, func(ph *ssa.Phi) Val { return entryPhi[ph] }, st)
 	if ls != nil {
 		for _, inv := range ls.Invariants {
-			env := vc.specEnv(fr, st, fr.oldStOrSelf(st), locals)
+			env := vc.specEnvCur(fr, st, fr.oldStOrSelf(st), locals)
 			f := vc.trBool(env, inv.E)
 			vc.oblige(st, fmt.Sprintf("%s#loop%d.entry.%d", fname, li.ord, inv.Idx), "loop.entry", f, inv.Src, blockPos(li.header))
 		}
@@ -1298,7 +1351,7 @@ func (vc *VC) loopHead(fr *Frame, li *loopInfo, st *State, phis []*ssa.Phi, entr
 	}
 	if ls != nil {
 		for _, inv := range ls.Invariants {
-			env := vc.specEnv(fr, head, fr.oldStOrSelf(head), locals)
+			env := vc.specEnvCur(fr, head, fr.oldStOrSelf(head), locals)
 			vc.assume(head, vc.trBool(env, inv.E))
 		}
 	}
@@ -1361,7 +1414,7 @@ func (vc *VC) loopBackEdge(fr *Frame, li *loopInfo, from *ssa.BasicBlock, ex *bl
 	locals := vc.loopLocals(fr, li, phis, func(ph *ssa.Phi) Val { return vc.operand(fr, ph.Edges[pi]) }, st)
 	fname := vc.fnNameOf(fr)
 	for _, inv := range ls.Invariants {
-		env := vc.specEnv(fr, st, fr.oldStOrSelf(st), locals)
+		env := vc.specEnvCur(fr, st, fr.oldStOrSelf(st), locals)
 		f := vc.trBool(env, inv.E)
 		vc.oblige(st, fmt.Sprintf("%s#loop%d.preserve.%d", fname, li.ord, inv.Idx), "loop.preserve", f, inv.Src, blockPos(li.header))
 	}
@@ -1610,8 +1663,16 @@ func (vc *VC) loopCallMods(fr *Frame, li *loopInfo, x *ssa.Call, add func(comp, 
 func (vc *VC) frameCheck(fr *Frame, exit *State) {
 	env := vc.specEnv(fr, fr.oldSt, fr.oldSt, nil)
 	allowed := map[string][]string{} // comp -> refs ("" = whole)
+	ranged := map[string][]Loc{}       // comp -> element-range locations
 	for _, m := range vc.spec.Modifies {
 		for _, l := range vc.locsOf(env, m) {
+			if l.Lo != "" {
+				ranged[l.Comp] = append(ranged[l.Comp], l)
+				if _, ok := allowed[l.Comp]; !ok {
+					allowed[l.Comp] = nil
+				}
+				continue
+			}
 			allowed[l.Comp] = append(allowed[l.Comp], l.Ref)
 		}
 	}
@@ -1642,7 +1703,16 @@ func (vc *VC) frameCheck(fr *Frame, exit *State) {
 		}
 		sort := vc.compSort[c]
 		var goal string
-		if strings.HasPrefix(sort, "(Array Int ") {
+		if rl := ranged[c]; len(rl) > 0 {
+			var ex []string
+			for _, r := range refs {
+				ex = append(ex, fmt.Sprintf("(not (= r %s))", r))
+			}
+			for _, l := range rl {
+				ex = append(ex, fmt.Sprintf("(not (and (= r %s) (<= %s k) (< k %s)))", l.Ref, l.Lo, l.Hi))
+			}
+			goal = fmt.Sprintf("(forall ((r Int) (k Int)) (=> (and (<= r %s) %s) (= (select (select %s r) k) (select (select %s r) k))))", next0, strings.Join(ex, " "), cur, ini)
+		} else if strings.HasPrefix(sort, "(Array Int ") {
 			var ex []string
 			for _, r := range refs {
 				ex = append(ex, fmt.Sprintf("(not (= r %s))", r))
@@ -1661,4 +1731,135 @@ func (vc *VC) frameCheck(fr *Frame, exit *State) {
 		}
 		vc.obligeNoAssume(exit, fmt.Sprintf("%s#frame.%s", vc.fnName(), c), "frame", goal, "only the locations named in modifies may change: "+c, fr.fn.Pos())
 	}
+}
+
+// ---------------------------------------------------------------- intrinsics (library functions with built-in semantics)
+
+// intrinsic models encoding/binary little-endian codecs exactly (byte stores / byte sums), so that
+// frame reasoning along store chains works. These are part of the trusted base.
+func (vc *VC) intrinsic(fr *Frame, instr ssa.Instruction, callee *ssa.Function, args []Val, st *State) (Val, bool) {
+	full := callee.String()
+	var n int
+	put := false
+	switch full {
+	case "(encoding/binary.littleEndian).PutUint32":
+		n, put = 4, true
+	case "(encoding/binary.littleEndian).PutUint64":
+		n, put = 8, true
+	case "(encoding/binary.littleEndian).PutUint16":
+		n, put = 2, true
+	case "(encoding/binary.littleEndian).Uint32":
+		n = 4
+	case "(encoding/binary.littleEndian).Uint64":
+		n = 8
+	case "(encoding/binary.littleEndian).Uint16":
+		n = 2
+	default:
+		return Val{}, false
+	}
+	vc.uses["intrinsic "+full] = true
+	b := args[1]
+	if b.Sl == nil {
+		return Val{}, false
+	}
+	if vc.safe(fr) {
+		vc.oblige(st, fmt.Sprintf("%s#safe.index.%d", vc.fnName(), vc.ord(fr, "index")), "safe", fmt.Sprintf("(<= %d %s)", n, b.Sl.Len), fmt.Sprintf("binary.LittleEndian needs %d bytes", n), instr.Pos())
+	}
+	comp := vc.elemComp(types.Typ[types.Uint8])
+	if put {
+		v := args[2].T
+		row := fmt.Sprintf("(select %s %s)", vc.get(st, comp), b.Sl.Arr)
+		div := "1"
+		for i := 0; i < n; i++ {
+			var byteT string
+			if i == 0 {
+				byteT = fmt.Sprintf("(mod %s 256)", v)
+			} else {
+				byteT = fmt.Sprintf("(mod (div %s %s) 256)", v, div)
+			}
+			row = fmt.Sprintf("(store %s %s %s)", row, addT(b.Sl.Off, fmt.Sprintf("%d", i)), byteT)
+			div = mul256(div)
+		}
+		vc.set(st, comp, fmt.Sprintf("(store %s %s %s)", vc.get(st, comp), b.Sl.Arr, row))
+		// redundant arithmetic fact (the little-endian bytes of v sum back to v); it is a theorem of
+		// integer arithmetic, stated here so the solver need not rediscover it under quantifiers
+		var sum []string
+		d2, m2 := "1", "1"
+		for i := 0; i < n; i++ {
+			bt := fmt.Sprintf("(mod (div %s %s) 256)", v, d2)
+			if i == 0 {
+				bt = fmt.Sprintf("(mod %s 256)", v)
+				sum = append(sum, bt)
+			} else {
+				sum = append(sum, fmt.Sprintf("(* %s %s)", m2, bt))
+			}
+			d2 = mul256(d2)
+			m2 = mul256(m2)
+		}
+		vc.emit(fmt.Sprintf("(assert (=> (and (<= 0 %s) (< %s %s)) (= (+ %s) %s)))", v, v, d2, strings.Join(sum, " "), v))
+		return Val{}, true
+	}
+	row := fmt.Sprintf("(select %s %s)", vc.get(st, comp), b.Sl.Arr)
+	var parts []string
+	mulT := "1"
+	for i := 0; i < n; i++ {
+		e := fmt.Sprintf("(select %s %s)", row, addT(b.Sl.Off, fmt.Sprintf("%d", i)))
+		if i == 0 {
+			parts = append(parts, e)
+		} else {
+			parts = append(parts, fmt.Sprintf("(* %s %s)", mulT, e))
+		}
+		mulT = mul256(mulT)
+	}
+	res := Val{T: vc.define("le", "Int", "(+ "+strings.Join(parts, " ")+")"), Typ: callee.Signature.Results().At(0).Type()}
+	// bytes are in 0..255 (heap invariant of []byte)
+	for i := 0; i < n; i++ {
+		e := fmt.Sprintf("(select %s %s)", row, addT(b.Sl.Off, fmt.Sprintf("%d", i)))
+		vc.assume(st, fmt.Sprintf("(and (<= 0 %s) (<= %s 255))", e, e))
+	}
+	return res, true
+}
+
+func mul256(s string) string {
+	// decimal string * 256 using big arithmetic via fmt
+	var x, y uint64
+	fmt.Sscanf(s, "%d", &x)
+	y = x * 256
+	if x != 0 && y/256 != x {
+		return "18446744073709551616"
+	}
+	return fmt.Sprintf("%d", y)
+}
+
+// offZeroClause recognises `off(retK) == 0` / `off(ret) == 0`.
+func offZeroClause(e Expr) (int, bool) {
+	b, ok := e.(*EBin)
+	if !ok || b.Op != "==" {
+		return 0, false
+	}
+	n, ok := b.R.(*ENum)
+	if !ok || n.V != "0" {
+		return 0, false
+	}
+	c, ok := b.L.(*ECall)
+	if !ok || len(c.Args) != 1 {
+		return 0, false
+	}
+	if id, ok := c.Fun.(*EIdent); !ok || id.Name != "off" {
+		return 0, false
+	}
+	a, ok := c.Args[0].(*EIdent)
+	if !ok {
+		return 0, false
+	}
+	if a.Name == "ret" {
+		return 0, true
+	}
+	if strings.HasPrefix(a.Name, "ret") {
+		k := 0
+		if _, err := fmt.Sscanf(a.Name, "ret%d", &k); err == nil {
+			return k, true
+		}
+	}
+	return 0, false
 }
